@@ -18,7 +18,7 @@ pub const COUNTERS: &[&str] = &[
     "positions", "spellings_parsed", "spellings_with_file_disambiguation", "spellings_with_rank_disambiguation", "spellings_with_square_disambiguation",
     "spellings_ep", "spellings_castle", "spellings_promotion", "spellings_with_check_mark", "spellings_with_mate_mark",
     "grammar_positions", "grammar_texts", "grammar_must_parse", "grammar_must_reject", "grammar_either", "mutated_texts", "mutated_texts_accepted", "short_strings",
-    "call_order_pairs",
+    "call_order_pairs", "castling_texts",
 ];
 
 pub const SAN_ROOTS: &[&str] = &[
@@ -44,6 +44,9 @@ pub const SAN_ROOTS: &[&str] = &[
     "3k4/8/8/8/8/N1N1N3/1N1N4/N1N1K3 w - - 0 1",
     "6k1/8/1N1N4/N3N3/2p5/N3N3/1N1N4/6K1 w - - 0 1",
     "4k3/8/8/1R1R1R2/8/1R1R1R2/8/4K3 w - - 0 1",
+    // an en-passant right plus further own pawns on that rank with a free square ahead (a push spelled as a capture)
+    "4k3/8/8/P2pP2P/8/8/8/4K3 w - d6 0 1",
+    "4k3/8/2p5/P1Pp3P/8/8/8/4K3 w - d6 0 1",
     // ten of a kind
     "4k3/8/8/8/8/NNNNN3/NNNNN3/4K3 w - - 0 1",
     "7k/8/8/8/8/RRRRR3/RRRRR3/4K3 w - - 0 1",
@@ -184,6 +187,42 @@ fn check_grammar(run: &Run, p: &RefPos, b: &Board, legal: &[RMove]) {
 
 const EDIT_ALPHABET: &[&str] = &["a", "e", "h", "1", "4", "8", "x", "N", "K", "Q", "O", "-", "+", "#", "=", " ", ".", "p", "é", "€", "😀", "\n", "\u{14e}", "\u{178}", "\u{14f}", "\u{131}", "\u{165}", "\u{1f151}"];
 
+/// Castling texts on EVERY position: "O-O" / "O-O-O" (and the zero forms, with and without a mark) denote
+/// castling and nothing else — where that castling is not legal the text denotes no legal move and must be
+/// rejected, even if some ordinary king move to g1 / c1 happens to be legal.
+fn check_castling_texts(run: &Run, p: &RefPos, b: &Board, legal: &[RMove]) {
+    for (text, kingside) in [("O-O", true), ("O-O-O", false), ("0-0", true), ("0-0-0", false)] {
+        let want: Option<RMove> = legal.iter().copied().find(|m| p.is_castle(*m) && (file_of(m.to) == 6) == kingside);
+        for mark in ["", "+", "#"] {
+            let t = format!("{text}{mark}");
+            match parse(b, &t) {
+                Err(e) => {
+                    fail(run, "panic", "castling text", format!("from_san({t:?}) panicked: {e}"), p, &t);
+                    return;
+                }
+                Ok(got) => {
+                    run.add("castling_texts", 1);
+                    match (want, got) {
+                        (None, Ok(m)) => {
+                            fail(run, "grammar-accepted", "castling text where that castling is not legal", format!("from_san({t:?}) = {m}; castling on that wing is not legal here, the text denotes no legal move"), p, &t);
+                            return;
+                        }
+                        (Some(w), Ok(m)) if m != w => {
+                            fail(run, "spelling-wrong-move", "castling", format!("from_san({t:?}) = {m}, expected {w}"), p, &t);
+                            return;
+                        }
+                        (Some(w), Err(_)) if mark.is_empty() && text.starts_with('O') => {
+                            fail(run, "spelling-rejected", "castling", format!("from_san({t:?}) is rejected although {w} is legal"), p, &t);
+                            return;
+                        }
+                        _ => {}
+                    }
+                }
+            }
+        }
+    }
+}
+
 /// (c) 1-edit ball of every spelling, and all short strings: no panic, Ok(m) => m legal.
 fn check_safety(run: &Run, p: &RefPos, b: &Board, legal: &[RMove], texts: &[String], short_len: usize) {
     let judge = |text: &str| -> bool {
@@ -247,7 +286,7 @@ fn check_safety(run: &Run, p: &RefPos, b: &Board, legal: &[RMove], texts: &[Stri
     run.add("short_strings", n);
 }
 
-pub const RULE: &str = "positions = SAN-specific roots (queens / rooks / knights / bishops needing file, rank and full-square disambiguation, a pinned rival, castling with check and with mate, en-passant captures, capture- and under-promotions), the curated roots, and their children (quick: children of the SAN roots; thorough: also of all roots), plus the en-passant family without extra man and the ~4350 feature-covering roots (thorough: with children). Per position: (a) every admissible spelling of every legal move (minimal and every fuller correct disambiguation, x on captures, promotion letter, no mark or the correct +/#, optional ' e.p.') must parse to exactly that move; (b) on a subset, EVERY grammar-complete text piece x source(81) x x x dest(all destinations + 2) x promo{-,Q,N} x {-,+} x {-, e.p.} judged by a reference interpreter (fits exactly one and markers right: must parse to it; fits none or several: must be rejected; flawed only in an unvalidated marker: either); (d) call order: for up to 400 (thorough 4000) pairs per truncation of different positions whose hashes agree in the low 32 / high 32 / low 16 / low 24 / xor-folded 32 / high 32 + low 8 / high 16 + low 16 bits / the high half of key x golden ratio, from_san is asked about the first and then, on the same thread, every spelling of every move of the second is judged (a memo keyed by a narrowed hash would answer for the wrong position); (c) the complete 1-edit ball (insert / delete / substitute over a 28-symbol alphabet incl. 2/3/4-byte characters, among them characters whose low byte equals N, x, O, 1, e, Q) of every spelling and all strings of length <= 3 (quick: 2): no panic and Ok(m) implies m legal. distinct_nontrivial = spellings that needed disambiguation, castling, en passant, promotion or a check/mate mark";
+pub const RULE: &str = "positions = SAN-specific roots (queens / rooks / knights / bishops needing file, rank and full-square disambiguation, a pinned rival, castling with check and with mate, en-passant captures, capture- and under-promotions), the curated roots, and their children (quick: children of the SAN roots; thorough: also of all roots), plus the en-passant family without extra man and the ~4350 feature-covering roots (thorough: with children). Per position: (a) every admissible spelling of every legal move (minimal and every fuller correct disambiguation, x on captures, promotion letter, no mark or the correct +/#, optional ' e.p.') must parse to exactly that move; (b) on a subset, EVERY grammar-complete text piece x source(81) x x x dest(all destinations + 2) x promo{-,Q,N} x {-,+} x {-, e.p.} judged by a reference interpreter (fits exactly one and markers right: must parse to it; fits none or several: must be rejected; flawed only in an unvalidated marker: either); (d) call order: for up to 400 (thorough 4000) pairs per truncation of different positions whose hashes agree in the low 32 / high 32 / low 16 / low 24 / xor-folded 32 / high 32 + low 8 / high 16 + low 16 bits / the high half of key x golden ratio, from_san is asked about the first and then, on the same thread, every spelling of every move of the second is judged (a memo keyed by a narrowed hash would answer for the wrong position); (e) castling texts (O-O, O-O-O, 0-0, 0-0-0, with and without + / #) on EVERY position: the castling move where it is legal, rejected where it is not (a legal king step to g1 / c1 does not make the text admissible); an 'x' without ' e.p.' on a move that captures nothing must be rejected; (c) the complete 1-edit ball (insert / delete / substitute over a 28-symbol alphabet incl. 2/3/4-byte characters, among them characters whose low byte equals N, x, O, 1, e, Q) of every spelling and all strings of length <= 3 (quick: 2): no panic and Ok(m) implies m legal. distinct_nontrivial = spellings that needed disambiguation, castling, en passant, promotion or a check/mate mark";
 
 fn check_position(run: &Run, p: &RefPos, grammar: bool, short_len: usize) {
     let b = match guard::lib(|| from_scratch(p)) {
@@ -259,6 +298,9 @@ fn check_position(run: &Run, p: &RefPos, grammar: bool, short_len: usize) {
     run.add("positions", 1);
     run.states.fetch_add(1, Ordering::Relaxed);
     let texts = check_spellings(run, p, &b, &legal);
+    if !run.has_violation() {
+        check_castling_texts(run, p, &b, &legal);
+    }
     run.transitions.fetch_add(texts.len() as u64, Ordering::Relaxed);
     if run.has_violation() {
         return;
